@@ -780,6 +780,31 @@ def session_oracle(w, meta, res):
                            "requests": len(reqs)}))
     if end == "finished" and meta["broken"] is None and len(lines) != len(reqs):
         out.append((None, {"what": "phase finished but replies != requests", "wire": wire, "requests": len(reqs)}))
+    # EXACTLY ONE REPLY, and "otherwise the build fails": in a well-formed stream (no broken framing) every
+    # request is answered; the daemon loop may only be left by a fatal request that failed (its reply is
+    # the last line, non-zero) or an internal error (same), never without a reply
+    wellformed = meta.get("broken") is None
+    if wellformed and len(lines) < len(reqs) and (end in ("crash", "unhandled", "empty") or end.startswith("other:")):
+        k = len(lines)
+        out.append((None, {"what": "a well-formed request got NO reply (the handler died with an exception that "
+                                   "is not an IpcError): the bash side waits for a line that never comes",
+                           "request": list(reqs[k]) if k < len(reqs) else None,
+                           "history": [list(r) for r in reqs[: k + 1]], "end": end, "wire": wire}))
+    if wellformed and end in ("fatal", "internal") and lines:
+        k = len(lines) - 1
+        st = lines[-1].split("\x07", 1)[0]
+        if st == "0":
+            out.append((None, {"what": "the build was failed by a request whose reply says success",
+                               "request": list(reqs[k]) if k < len(reqs) else None, "wire": wire}))
+        if end == "fatal" and k < len(reqs) and reqs[k][1]:
+            out.append((None, {"what": "a NONFATAL request failed the build instead of returning its code",
+                               "request": list(reqs[k]), "wire": wire}))
+    if wellformed and end in ("finished", "phasefailed"):
+        for (cmd, nonfatal, opts, args), line in zip(reqs, lines):
+            st = line.split("\x07", 1)[0]
+            if not nonfatal and st != "0" and st.lstrip("-").isdigit():
+                out.append((None, {"what": "a FATAL request failed (non-zero reply) but the build went on",
+                                   "request": [cmd, nonfatal, opts, args], "reply": line}))
     # nonfatal_returns_code: every failing external command ends its request with exactly that code,
     # so the non-zero statuses answered by the oracle are a subsequence of the reply statuses
     # (a failing patch(1) that printed nothing makes eapply raise IndexError on output[0]: "internal
@@ -1128,6 +1153,23 @@ def main(chk: Check):
         # a fallback request must not make later plain requests of the same helper use install(1)
         ([], [("real",), ("say", 1, ["must not be asked"])],
          [("doexe", True, "--dest=/usr '--insoptions=-m a=r'", ["a"]), ("doexe", True, "--dest=/usr", ["b"])], None),
+        # (seed 24) a stream cut right after the header of a c32env request: no arguments -> IndexError in
+        # the pseudo-helper -> one "internal failure" reply, daemon torn down
+        ([], [], [("dodoc", True, "--dest=/usr --diroptions=-m0700 --insoptions=-m0755", ["a", "b", "e.1", "dd"]),
+                  (ENV_CMD, True, "", []), ("dodoc", True, "--dest=/usr", ["a"])], "envcut"),
+        # FATAL requests failing through every exception class (UnknownOptions, UnknownArguments, argparse
+        # error, fs error, plain IpcCommandError, external command): one non-zero reply, then the build fails
+        ([], [], [("doins", False, "--dest=/usr --bogus=1", ["a"])], None),
+        ([], [], [("dodir", False, "--frobnicate", ["/x"])], None),
+        ([], [], [("doins", False, "--dest=/usr", ["a", "-r", "b"])], None),
+        ([], [], [("has_version", False, "", ["cat/a", "surplus"])], None),
+        ([], [], [("dodoc", True, "--dest=/usr --bogus=1", ["a"]), ("dodoc", False, "--dest=/usr", ["a", "-r", "zz", "b"])], None),
+        ([], [], [("doexe", False, "--dest=/usr", ["nope"])], None),
+        ([], [], [("doexe", False, "--dest=/usr", [])], None),
+        ([("usr", 7)], [], [("doexe", False, "--dest=/usr/share", ["a"])], None),
+        ([], [], [("dodoc", False, "--dest=/usr", ["dd"])], None),
+        ([], [], [("docompress", False, "", [])], None),
+        ([], [("say", 1, ["patch: boom"])], [("eapply", False, "", ["a"])], None),
         # state carried across calls on the long-lived helper objects: the ebuild removes what the first
         # call created, the repeated call has to create it again (or fail truthfully)
         ([], [], [("dodir", True, "", ["/x/y"]), (ENV_CMD, True, "", ["rmtree", "x"]), ("dodir", True, "", ["/x/y"])], None),
